@@ -27,4 +27,9 @@ theorem gen_b64offset_payload_only (v : List Byte) (i : Nat) (hi : i < 3) :
     '=' ∉ b64offsetAt SigmaVerif.Gen.B64.tables v.length v i :=
   SigmaVerif.Props.C04.b64offset_payload_only _ gen_tables_sound v i hi
 
+/-- … and every payload of a value list is found, at the tables the code has *now* -/
+theorem gen_b64offset_list_complete (vs : List (List Byte)) (v : List Byte) (hv : v ∈ vs) (p s : List Byte) :
+    ∃ x ∈ b64offsetList SigmaVerif.Gen.B64.tables vs, x <:+: b64 (p ++ v ++ s) :=
+  SigmaVerif.Props.C04.b64offset_list_complete _ gen_tables_sound vs v hv p s
+
 end SigmaVerif.Oblig.C04
